@@ -134,6 +134,13 @@ contract('mapproxy.image:bbox_position_in_image', props=['C17', 'C01'],
              """implies(src_bbox[3] <= bbox[3], result[1][1] <= (bbox[3] - min(bbox[3], src_bbox[3])) * size[1] / (bbox[3] - bbox[1])
                         and (bbox[3] - min(bbox[3], src_bbox[3])) * size[1] / (bbox[3] - bbox[1]) < result[1][1] + 1)""",
              'result[0][0] >= 0 and result[0][1] >= 0',
+             # size of the sub image: the clipped extent in output pixels, to within the two truncations (exact without clipping)
+             'implies(src_bbox[0] <= bbox[0] and src_bbox[2] >= bbox[2], result[0][0] == size[0])',
+             'implies(src_bbox[1] <= bbox[1] and src_bbox[3] >= bbox[3], result[0][1] == size[1])',
+             """implies(src_bbox[0] < src_bbox[2] and src_bbox[0] < bbox[2] and src_bbox[2] > bbox[0],
+                        abs(result[0][0] - (result[2][2] - result[2][0]) * size[0] / (bbox[2] - bbox[0])) < 1)""",
+             """implies(src_bbox[1] < src_bbox[3] and src_bbox[1] < bbox[3] and src_bbox[3] > bbox[1],
+                        abs(result[0][1] - (result[2][3] - result[2][1]) * size[1] / (bbox[3] - bbox[1])) < 1)""",
          ],
          must_fail='result[1][0] == 0')
 
